@@ -188,6 +188,10 @@ func (d *duplexHTTPCall) CloseRead() error {
 	}
 	if err := discard(d.response.Body); err != nil {
 		_ = d.response.Body.Close()
+		if ctxErr := d.ctx.Err(); ctxErr != nil {
+			// As in Read: once the context is done, that's why the read failed.
+			err = wrapIfContextError(ctxErr)
+		}
 		return wrapIfRSTError(err)
 	}
 	return wrapIfRSTError(d.response.Body.Close())
